@@ -579,6 +579,19 @@ func c20RunCase(r *zv.Run, t *testing.T, pool *c20Pool, seed uint64) *c20Runner 
 	if err := x.svc.Start(context.Background()); err != nil {
 		t.Fatal(err)
 	}
+	// a quarter of the cases run on a service that was stopped and started again before anybody subscribes (the
+	// lifecycle hooks of a restarted node): a running service is a running service
+	if (seed>>9)%4 == 0 {
+		if err := x.svc.Stop(context.Background()); err != nil {
+			t.Fatal(err)
+		}
+		if err := x.svc.Start(context.Background()); err != nil {
+			t.Fatal(err)
+		}
+		r.Count("service_lifecycle", "stopped-and-restarted-before-subscribing")
+	} else {
+		r.Count("service_lifecycle", "started-once")
+	}
 	defer x.cleanup()
 	nsubs := 1 + rng.Intn(3)
 	perm := []int{0, 1, 2, 3}
